@@ -53,6 +53,31 @@ class C06(Prop):
                     render = rng.choice(["int", "display", "display+", "display-"])
                     cases.append({"kind": "number:" + render + ":" + shape, "tbl": tbl, "idx": idx, "triple": tr, "vkind": render,
                                   "raw_hint": raw, "mult": d["multiplier"], "offset": d["offset"]})
+        # sessions: an unconfirmed call, reports that move the bounds (also with the old value), then a second call
+        plain = [(tbl, idx) for tbl, name in enumerate(param_impl.TABLES) if tbl != 5
+                 for idx, d in enumerate(t[name]) if not d["switch"] and d["multiplier"] == 1.0 and d["offset"] == 0 and d["size"] == 1]
+        for _ in range(150 if tier == "quick" else 3000):
+            tbl, idx = rng.choice(plain)
+            v = rng.randrange(20, 200)
+            lo, hi = rng.randrange(0, v + 1), rng.randrange(v, 256)
+            req1 = rng.choice([x for x in (lo, hi, min(hi, v + 3), max(lo, v - 3)) if x != v] or [v])
+            retries = rng.choice([1, 2])
+            nlo, nhi = rng.randrange(lo, v + 1), rng.randrange(v, hi + 1)
+            evs = []
+            for _ in range(rng.randrange(1, 5)):
+                r = rng.random()
+                if r < 0.4:
+                    evs.append([0])
+                elif r < 0.75:
+                    evs.append([1, [v, nlo, nhi]])                    # old value, new bounds
+                else:
+                    evs.append([1, [rng.choice([req1, v]), rng.randrange(lo, v + 1), rng.randrange(v, hi + 1)]])
+            evs += [[0]] * (retries + 1)
+            req2 = rng.choice([lo, hi, nlo - 1, nhi + 1, nlo, nhi, rng.randrange(0, 256)])
+            if req2 < 0:
+                req2 = nhi + 1
+            cases.append({"kind": "session", "tbl": tbl, "idx": idx, "triple": [v, lo, hi],
+                          "calls": [[req1, retries, evs], [req2, 1, []]]})
         return cases
 
     def _pyvalue(self, c):
@@ -72,6 +97,8 @@ class C06(Prop):
         return x
 
     def run_impl(self, c):
+        if c["kind"] == "session":
+            return vloop.run(param_impl.run_session, c["tbl"], c["idx"], c["triple"], c["calls"], False)
         outs, after, after_call = vloop.run(param_impl.run_set_call, c["tbl"], c["idx"], c["triple"], self._pyvalue(c), 2, 5.0, [],
                                             False, 0)
         return [outs, after_call]
@@ -83,6 +110,9 @@ class C06(Prop):
         exprs, idx = [], []
         reqs = [None] * len(cases)
         for i, c in enumerate(cases):
+            if c["kind"] == "session":
+                reqs[i] = "session"
+                continue
             v = self._pyvalue(c)
             if c["kind"].startswith("switch"):
                 reqs[i] = (1 if v == "on" else 0) if isinstance(v, str) else int(v)
@@ -96,19 +126,31 @@ class C06(Prop):
 
     def model_many(self, cases):
         reqs = self._reqs(cases)
-        args = [[[False] * 4, c["triple"], (r if r is not None else 0), 2, []] for c, r in zip(cases, reqs)]
+        fix = lambda r: [[([o[0], bool(o[1])] if o[0] == 2 else o) for o in pt] for pt in r]
+        args = [[[False] * 4, c["triple"], (r if isinstance(r, int) else 0), 2, []] for c, r in zip(cases, reqs)]
         res = model.call_many("run_set", args)
         out = []
-        for r, q in zip(res, reqs):
+        for c, r, q in zip(cases, res, reqs):
             if q is None:
                 out.append(None)
+            elif q == "session":
+                held = c["triple"]
+                sess = []
+                for req, retries, evs in c["calls"]:
+                    m = model.call("run_set", [[False] * 8, held, req, retries, evs])
+                    m0 = model.call("run_set", [[False] * 8, held, req, retries, []])
+                    sess.append([fix(m[0]), held, m0[1]])
+                    held = m[1]
+                out.append(sess)
             else:
-                out.append([[[([o[0], bool(o[1])] if o[0] == 2 else o) for o in pt] for pt in r[0]], r[1]])
+                out.append([fix(r[0]), r[1]])
         return out
 
     def obs(self, c, b):
         if b is None:
             return None
+        if c["kind"] == "session":
+            return [[[[o for o in pt if o[0] in (0, 3)] for pt in call[0]], call[1], call[2]] for call in b]
         # the optimistic local value is part of the observation; the return value of an in-range call is C08's business
         return [[[o for o in pt if o[0] in (0, 3)] for pt in b[0]], b[1]]
 
@@ -118,6 +160,22 @@ class C06(Prop):
         res = [True] * len(cases)
         for i, (c, b, q) in enumerate(zip(cases, behaviours, reqs)):
             if q is None:
+                continue
+            if q == "session":
+                # each call is judged against the bounds the controller LAST REPORTED before it (ground truth of the
+                # harness, not the implementation's state) and the value held when it was made
+                lo, hi = c["triple"][1], c["triple"][2]
+                ok = True
+                for (req, retries, evs), call in zip(c["calls"], b):
+                    outs, before, after_call = call
+                    if any(isinstance(o[0], str) for pt in outs for o in pt):
+                        ok = False
+                        break
+                    ok = ok and bool(model.call("P06", [[before[0], lo, hi], req, outs, after_call if not (lo <= req <= hi) else [before[0], lo, hi]]))
+                    for ev in evs:
+                        if ev[0] == 1:
+                            lo, hi = ev[1][1], ev[1][2]
+                res[i] = ok
                 continue
             if any(isinstance(o[0], str) for pt in b[0] for o in pt):
                 res[i] = False
